@@ -35,12 +35,14 @@ MANIFEST = {
     "note": "Trusted: pandas for building the frame; independent parse used only to recognise the documented drill "
             "coercion collision. Part files are read individually through ParquetFile to attribute rows to directories.",
 }
-BUDGET = {"quick": {"shards": 8, "examples": 160, "wall": 100},
+BUDGET = {"quick": {"shards": 8, "examples": 260, "wall": 100},
           "thorough": {"shards": 16, "examples": 5000, "wall": 1500}}
 
 
 def strategy(tier):
-    return datasets.partitioned(thorough=(tier == "thorough"))
+    from hypothesis import strategies as st
+    # most cases hold enough rows for several key combinations and files
+    return st.sampled_from([0, 3, 5, 5, 8]).flatmap(lambda m: datasets.partitioned(thorough=(tier == "thorough"), min_rows=m))
 
 
 def key_text(col, v):
